@@ -73,6 +73,8 @@ func runServeLoop6(c *Ctx, rounds int) {
 			}
 		})
 		var dgs [][]byte
+		mustAnswer := map[dhcpv6.TransactionID]int{}
+		var longDgs [][]byte
 		n := 3 + r.Intn(30)
 		for i := 0; i < n; i++ {
 			xid++
@@ -85,8 +87,14 @@ func runServeLoop6(c *Ctx, rounds int) {
 				vlen := 20 + r.Intn(400)
 				if r.Pct(12) {
 					vlen = []int{4000, 4096, 5000, 9000, 20000, 60000}[r.Intn(6)] // datagrams far beyond one Ethernet frame, up to the UDP limit
+					m.MessageType = dhcpv6.MessageTypeSolicit                      // (a SOLICIT with a client identifier is answered by this chain whatever else it carries)
+					mustAnswer[m.TransactionID] = vlen
 				}
-				m.AddOption(&dhcpv6.OptionGeneric{OptionCode: 16, OptionData: r.Bytes(vlen)})
+				code := dhcpv6.OptionCode(16) // vendor class: random bytes rarely parse - such a datagram is dropped, which is right
+				if _, long := mustAnswer[m.TransactionID]; long {
+					code = 250 // an option the library does not know: any payload is well-formed
+				}
+				m.AddOption(&dhcpv6.OptionGeneric{OptionCode: code, OptionData: r.Bytes(vlen)})
 				m.AddOption(dhcpv6.OptElapsedTime(0))
 				if m.MessageType == dhcpv6.MessageTypeSolicit {
 					m.AddOption(&dhcpv6.OptionGeneric{OptionCode: dhcpv6.OptionRapidCommit}) // last option of the longest datagram
@@ -95,6 +103,10 @@ func runServeLoop6(c *Ctx, rounds int) {
 				m.AddOption(dhcpv6.OptRequestedOption(23))
 			}
 			raw := m.ToBytes()
+			if _, long := mustAnswer[m.TransactionID]; long {
+				longDgs = append(longDgs, raw) // sent one by one after the burst: a socket's receive queue cannot hold a burst of such datagrams
+				continue
+			}
 			dgs = append(dgs, raw)
 			direct.Handle(raw, &ipv6.ControlMessage{}, &net.UDPAddr{IP: net.IPv6loopback, Port: 546})
 		}
@@ -120,6 +132,19 @@ func runServeLoop6(c *Ctx, rounds int) {
 			time.Sleep(2 * time.Millisecond)
 		}
 		time.Sleep(5 * time.Millisecond)
+		for _, raw := range longDgs {
+			var x dhcpv6.TransactionID
+			copy(x[:], raw[1:4])
+			conn.Write(raw)
+			for dl := time.Now().Add(2 * time.Second); time.Now().Before(dl); time.Sleep(time.Millisecond) {
+				mu.Lock()
+				k := len(got[x])
+				mu.Unlock()
+				if k > 0 {
+					break
+				}
+			}
+		}
 		c.Evals++
 		c.Count("serve-loop6:round")
 		mu.Lock()
@@ -136,8 +161,16 @@ func runServeLoop6(c *Ctx, rounds int) {
 			}
 		}
 		for x := range got {
+			if _, long := mustAnswer[x]; long {
+				continue
+			}
 			if _, ok := want[x]; !ok {
 				c.Violate("serve-loop-reply-unexpected", fmt.Sprintf("a reply with transaction id %x that direct handling does not produce", x[:]), input)
+			}
+		}
+		for x, vlen := range mustAnswer {
+			if len(got[x]) == 0 {
+				c.Violate("serve-loop-long-datagram-unanswered", fmt.Sprintf("a SOLICIT with a client identifier and a %d-byte option of an unassigned code (transaction id %x) got no reply through the receive loop: datagrams up to the UDP limit must be read whole", vlen, x[:]), input)
 			}
 		}
 		mu.Unlock()
